@@ -519,6 +519,17 @@ theorem assoc_taxonomy_is_projection (rows : List RowX) :
   ⟨rfl, makeX_defs rows, defined_iff_getX rows⟩
 
 open Hs.NsA in
+/-- the indexes `Namespace::make` builds next to `subtypes` / `conjuncts_keys`: `features` and `conjuncts` are the defs
+whose symbol contains `:` / `-`; `tag_on_names` is exactly the set of Symbol items of all `tagOn` lists; `tag_on_defs`
+has one entry per def with a `tagOn` list, holding the defined Symbol items in list order -/
+theorem make_indexes_spec (x : NsX) :
+    (∀ n, n ∈ features x ↔ ∃ d, d ∈ x.xd ∧ d.name = n ∧ isFeature n = true) ∧
+    (∀ n, n ∈ conjuncts x ↔ ∃ d, d ∈ x.xd ∧ d.name = n ∧ isConjunct n = true) ∧
+    (∀ n, n ∈ tagOnNames x ↔ ∃ d l, d ∈ x.xd ∧ d.getList nTagOn = some l ∧ some n ∈ l) ∧
+    (∀ k v, (k, v) ∈ tagOnDefs x ↔ ∃ d l, d ∈ x.xd ∧ d.name = k ∧ d.getList nTagOn = some l ∧ v = definedSyms x.ns.defs l) :=
+  ⟨mem_features x, mem_conjuncts x, mem_tagOnNames x, mem_tagOnDefs x⟩
+
+open Hs.NsA in
 /-- `associations` answers nothing for a name that is no def, or a def that does not list `association` in `is` -/
 theorem associations_only_for_associations (fuel : Nat) (x : NsX) (p a : Name) :
     (getX x.xd a = none → associations fuel x p a = .ok []) ∧
